@@ -10,7 +10,7 @@
 From Coq Require Import List NArith Arith Bool.
 From Verif.Common Require Import Prefix.
 From Coq Require Import Permutation.
-From Verif.C43 Require Import Model Spec Proofs Final FinalProofs Blackhole MgrProofs FlushPerm Reflag Peer PoolUpd Chain Fresh FreshOps NR Inv Link Link2 Link3 Link4 Link5 Link6 Order.
+From Verif.C43 Require Import Model Spec Proofs Final FinalProofs Blackhole MgrProofs FlushPerm Reflag Peer PoolUpd Chain Fresh FreshOps NR Inv Link Link2 Link3 Link4 Link5 Link6 EndToEnd Order.
 Import ListNotations.
 Open Scope N_scope.
 
@@ -211,6 +211,32 @@ Theorem c43_order_independent : forall (BK : prefix -> Prop),
         aget prefix_eqb (s_out (run true ops)) k = desired (state_of ops) k).
 Proof. exact order_independent. Qed.
 Print Assumptions c43_order_independent.
+
+(* (7) END TO END, the property as stated: after ANY history (hypotheses of (6)) whose final datastore state is one
+       the datastore admits, for every remote block or borrowed address the kernel routes the vxlan / ipip / noencap
+       managers derive from the route the resolver holds downstream are exactly the demanded ones (direct via the owner
+       iff the pool is unencapsulated or cross-subnet with the owner in the local subnet, else the pool's tunnel route),
+       and every local non-/32 block in a routed pool is blackholed by that pool's manager -- whatever order the node,
+       pool, block and workload updates arrived in. *)
+Theorem c43_history_meets_demand : forall (BK : prefix -> Prop),
+  (forall a b x, BK a -> BK b -> covers 32 a x = true -> covers 32 b x = true -> a = b) ->
+  forall ops, Forall (hop_ok BK) ops -> Forall dop_ok ops ->
+  let d := state_of ops in
+  valid_state d = true -> forall c h, In (c, h) (remote_dsts d) ->
+  programmed_from (aget prefix_eqb (s_out (run true ops)) c) (peers_of d) c = kroute_of c (demanded d c h).
+Proof. exact history_meets_demand. Qed.
+Print Assumptions c43_history_meets_demand.
+
+Theorem c43_history_blackholes_local_blocks : forall (BK : prefix -> Prop),
+  (forall a b x, BK a -> BK b -> covers 32 a x = true -> covers 32 b x = true -> a = b) ->
+  forall ops, Forall (hop_ok BK) ops -> Forall dop_ok ops ->
+  let d := state_of ops in
+  valid_state d = true -> forall b p, In b (local_blocks d) -> plen b <> 32%nat ->
+  (forall w, In w (wep_addrs d) -> covers 32 w b = false) ->
+  pool_of d b = Some p -> encap_of p <> NotRouted ->
+  exists r, aget prefix_eqb (s_out (run true ops)) b = Some r /\ mgr_local_block (mgr_of (encap_of p)) b r = true.
+Proof. exact history_blackholes_local_blocks. Qed.
+Print Assumptions c43_history_blackholes_local_blocks.
 
 (* the hypotheses are satisfiable by a history with reverts, a borrowed address, a local workload and the local
    node losing and regaining its IPv4 subnet; and on it the theorem's conclusion is the direct route of (1) *)
